@@ -43,6 +43,8 @@ pub enum SizeSpec {
     Plus1,
     Minus1,
     Literal(u64),
+    /// the real length plus this (2^k, 10^k: differences that vanish in a narrower type)
+    Plus(u64),
 }
 
 #[derive(Clone, Debug, Serialize, Deserialize)]
@@ -182,6 +184,7 @@ fn entry_spec() -> BoxedStrategy<EntrySpec> {
         1 => Just(SizeSpec::Plus1),
         1 => Just(SizeSpec::Minus1),
         1 => prop::sample::select(vec![0u64, u64::MAX, 1]).prop_map(SizeSpec::Literal),
+        1 => prop::sample::select(vec![1u64 << 8, 1 << 16, 1 << 31, 1 << 32, 1 << 33, 3 << 32, 1 << 63, 1_000_000_000, 10_000_000_000]).prop_map(SizeSpec::Plus),
     ];
     (name, basis, prop::collection::vec((0u8..6, hash_spec()), 0..=4), size, any::<bool>())
         .prop_map(|(name, basis, mut checksums, size, size_first)| {
@@ -379,6 +382,7 @@ pub fn check(c: &Case, obs: &mut Obs) -> Result<(), String> {
             (SizeSpec::Plus1, _) => Some(basis.len() as u64 + 1),
             (SizeSpec::Minus1, _) => Some((basis.len() as u64).saturating_sub(1)),
             (SizeSpec::Literal(n), _) => Some(*n),
+            (SizeSpec::Plus(d), _) => Some((basis.len() as u64).wrapping_add(*d)),
         };
         if checksums.is_empty() && size.is_none() {
             continue;
